@@ -22,3 +22,4 @@ PROP = {'engine': 'stack',
  'technique': 'property-based testing (rapid): generated invocation histories, history invariant with byte equality'}
 PROP['rule'] += ' Round-4 addition: client contexts of bytes that are not UTF-8 (Latin-1 text, binary; written hex:<digits> in scenario and trace, which are JSON) must reach the runtime byte for byte.'
 PROP['rule'] += " Round-5 addition: invocation kind 'late' - the runtime answers and then never asks for its next event, so the invocation is still open when the function timeout expires: the caller receives exactly the posted response or exactly the timeout message (C01/two-outcomes otherwise)."
+PROP['rule'] += ' Round-6 addition: a caller on a slow link (it has the response headers of a 2-6 MiB response but reads the body only after the next invocation, with another large response, has been answered) still receives exactly its own bytes.'
